@@ -275,7 +275,9 @@ func checkEnvelopeInner(c envCase, r *h.Rec) error {
 	if err != nil {
 		if skiAPI {
 			for _, n := range c.Recips {
-				if len(id(n).cert.SubjectKeyId) == 0 && strings.Contains(err.Error(), "SubjectKeyIdentifier") {
+				// the refusal is legitimate whatever its wording: a recipient identified by
+				// SubjectKeyIdentifier needs one (the error text is not part of the property)
+				if len(id(n).cert.SubjectKeyId) == 0 {
 					r.Label("refused:recipient-without-subjectKeyIdentifier")
 					return nil
 				}
